@@ -136,6 +136,10 @@ def when_last_out_of_sequence(self, frame, owner, nxt, m, k):
     return owner.F == m.F and owner.ID == m.ID and k == m.n - 1 and k != nxt and k != 0
 
 
+def req_no_overtaking_last(self, frame, owner, nxt, m, k):
+    return not when_last_out_of_sequence(self, frame, owner, nxt, m, k)
+
+
 def req_step_empty(self, frame, m, k):
     return (q_wf(self) and nodup(self) and msg_ok(m) and cache_empty(self)
             and 0 <= k and k <= m.n - 1 and is_frag(frame, m, k))
@@ -186,10 +190,18 @@ CONTRACTS = [
               "m": OneOf(Share("owner"), msg_schema()), "k": Int(0, 254)},
              ghost=["owner", "nxt", "m", "k"], setup=[R + "setup_step_owner"], requires=[R + "req_step_owner"], ensures=[("R", R + "ens_step_owner")],
              raises=(), policy=POL, props=["C06"], timeout_ms=60000),
+    # C05 ("reassembled transparently") rests on the same step; its premise -- no packet lost, no other
+    # message in flight -- excludes a LAST fragment overtaking missing middle fragments, so the known
+    # finding D4a (which needs exactly that) is outside it by precondition, not by suppression
+    Contract("C05.reassemble.step", FQF + ".enqueue",
+             {"self": fq_state(Int(0, 4095)), "frame": ARG, "owner": Share("owner", msg_schema()), "nxt": Int(1, 254),
+              "m": OneOf(Share("owner"), msg_schema()), "k": Int(0, 254)},
+             ghost=["owner", "nxt", "m", "k"], setup=[R + "setup_step_owner"], requires=[R + "req_step_owner", R + "req_no_overtaking_last"],
+             ensures=[("R", R + "ens_step_owner")], raises=(), policy=POL, props=["C05"], timeout_ms=60000),
     Contract("C06.enqueue.step_empty", FQF + ".enqueue",
              {"self": fq_state(Const(None)), "frame": ARG, "m": msg_schema(), "k": Int(0, 254)},
              ghost=["m", "k"], setup=[R + "setup_step_empty"], requires=[R + "req_step_empty"], ensures=[("R", R + "ens_step_empty")],
-             raises=(), policy=POL, props=["C06"], timeout_ms=60000),
+             raises=(), policy=POL, props=["C06", "C05"], timeout_ms=60000),
     Contract("C06.init.empty", FQF + ".__init__", {"self": Obj(FQF, {}), "queue": Const(None)},
-             ensures=[("empty", R + "ens_init_empty")], raises=(), policy=POL, props=["C06"]),
+             ensures=[("empty", R + "ens_init_empty")], raises=(), policy=POL, props=["C06", "C05"]),
 ]
